@@ -1,7 +1,7 @@
 import Goat.Model.CF
 import Goat.Driver.Opt
 /-! line protocol: `cf <opt|noopt> <stmt tokens…> | a<n>=<instrs,…> … c<n>=<instrs,…> …`
-    statement tokens (prefix): `act n`, `seq`, `ite c`, `ift c`, `loop c p`, `forever p`, `brk`, `cont`, `swc c` (clause, then the rest of the switch), `swd` (default);
+    statement tokens (prefix): `act n`, `seq`, `ite c`, `ift c`, `loop c p`, `forever p`, `brk`, `cont`, `swc c` (clause, then the rest of the switch), `swd` (default), `ret n` (return after leaf n);
     answer: the assembled function body `rw 0 0 (compile L s)` (then the peephole passes when `opt`). -/
 namespace Goat.Driver
 open Goat.CF Goat.Peephole
@@ -15,6 +15,7 @@ partial def parseStmt : List String → Option (Stmt × List String)
     let (a, r) ← parseStmt r
     let (rest, r) ← parseStmt r
     some (.swc c a rest, r)
+  | "ret" :: n :: r => n.toNat?.map fun n => (.ret n, r)
   | "swd" :: r => do
     let (d, r) ← parseStmt r
     some (.swd d, r)
